@@ -17,7 +17,8 @@
      Raise(..)     [kind |-> "X", why]            an operation that raises; never produced by the specification proper
    Transform     [factor, conj, tr, sw]   (symmetry/point_symmetry.py:Transform; tr = transpose_axes, sw = swap_axes,
                                            <<>> = None)
-   PointSymmetry [R, TR, Inv]             R = the proper part, as stored by PointSymmetry.__init__
+   PointSymmetry [R, TR, Inv, order, tab]  R = the proper part, as stored by PointSymmetry.__init__; tab = its tensor
+                                           coefficient tables (MkSym)
 
    The meaning specified for the operators is the documented one (DESIGN.md 7.2): on energy-resolved results and
    dictionaries +, -, *, / and add() act element-wise; on k-resolved results + is the direct sum over k-points
@@ -29,6 +30,10 @@ EXTENDS Integers, Sequences, FiniteSets, TLC
 CONSTANT Wrong
 
 -----------------------------------------------------------------------------
+(* TLC keeps [p \in S |-> e] unevaluated and re-evaluates e at every application; nested array operators would cost
+   exponential time.  Eager turns an array expression of length n into an evaluated sequence. *)
+Eager(f, n) == SubSeq(f, 1, n)
+
 (* numbers *)
 CZ == <<0, 0>>
 CAdd(x, y) == <<x[1] + y[1], x[2] + y[2]>>
@@ -65,16 +70,24 @@ RSum(f, m) == IF m < 0 THEN RInt(0) ELSE RAdd(f[m], RSum(f, m - 1))
 Digit(c, j, r) == (c \div Pow3(r - j)) % 3
 RECURSIVE CompOf(_, _)
 CompOf(d, r) == IF r = 0 THEN 0 ELSE 3 * CompOf(d, r - 1) + d[r]        \* d : 1..r -> 0..2 (only 1..r is read)
-Digits(c, r) == [j \in 1..r |-> Digit(c, j, r)]
+Digits(c, r) == Eager([j \in 1..r |-> Digit(c, j, r)], r)
 
 (* PointSymmetry.rotate applied to every tensor axis: new[.., a, ..] = SUM_b R[a][b] old[.., b, ..] *)
 RECURSIVE RotCoef(_, _, _, _, _)
 RotCoef(R, c, d, r, j) == IF j = 0 THEN 1 ELSE R[Digit(c, j, r) + 1][Digit(d, j, r) + 1] * RotCoef(R, c, d, r, j - 1)
-RotateData(R, data, r) ==
+(* the non-zero coefficients of one tensor rank: tab[c + 1] = sequence of <<d, coefficient>> *)
+SymTab(R, r) ==
    LET n == Pow3(r) IN
-   [p \in 1..Len(data) |->
-      LET lead == (p - 1) \div n   c == (p - 1) % n IN
-      CSum([d \in 0..(n - 1) |-> CScale(RotCoef(R, c, d, r, r), data[lead * n + d + 1])], n - 1)]
+   Eager([c1 \in 1..n |-> SelectSeq(Eager([d1 \in 1..n |-> <<d1 - 1, RotCoef(R, c1 - 1, d1 - 1, r, r)>>], n), LAMBDA t : t[2] # 0)], n)
+(* a point operation with the coefficient tables of tensor ranks 0..maxrank (tab[r + 1]) *)
+MkSym(R, TR, Inv, order, maxrank) ==
+   [R |-> R, TR |-> TR, Inv |-> Inv, order |-> order, tab |-> Eager([r1 \in 1..(maxrank + 1) |-> SymTab(R, r1 - 1)], maxrank + 1)]
+RECURSIVE TermSum(_, _, _, _)
+TermSum(terms, data, off, m) == IF m = 0 THEN CZ ELSE CAdd(CScale(terms[m][2], data[off + terms[m][1] + 1]), TermSum(terms, data, off, m - 1))
+RotateData(g, data, r) ==
+   LET n == Pow3(r)  tb == g.tab[r + 1] IN
+   Eager([p \in 1..Len(data) |->
+      LET lead == (p - 1) \div n   c == (p - 1) % n IN TermSum(tb[c + 1], data, lead * n, Len(tb[c + 1]))], Len(data))
 
 (* Transform.__call__ : permute tensor axes (transpose_axes over the last Len(tr) axes, else swap_axes counted from the
    end), conjugate, multiply by the factor *)
@@ -85,23 +98,25 @@ SourceDigits(t, c, r) ==
    IF Len(t.tr) > 0 THEN
       (* numpy transpose: new index k runs over old axis tr[k]; the old index at axis a is the new index k with tr[k] = a *)
       LET off == r - Len(t.tr) IN
-      [j \in 1..r |-> IF j <= off THEN dg[j]
-                      ELSE LET k == CHOOSE k \in 1..Len(t.tr) : t.tr[k] = j - off - 1 IN dg[off + k]]
+      Eager([j \in 1..r |-> IF j <= off THEN dg[j]
+                      ELSE LET k == CHOOSE k \in 1..Len(t.tr) : t.tr[k] = j - off - 1 IN dg[off + k]], r)
    ELSE IF Len(t.sw) > 0 THEN
       LET a == r + t.sw[1] + 1   b == r + t.sw[2] + 1 IN
-      [j \in 1..r |-> IF j = a THEN dg[b] ELSE IF j = b THEN dg[a] ELSE dg[j]]
+      Eager([j \in 1..r |-> IF j = a THEN dg[b] ELSE IF j = b THEN dg[a] ELSE dg[j]], r)
    ELSE dg
 ApplyT(t, data, r) ==
-   LET n == Pow3(r) IN
-   [p \in 1..Len(data) |->
+   LET n == Pow3(r)
+       src == Eager([c1 \in 1..n |-> CompOf(SourceDigits(t, c1 - 1, r), r)], n)     \* component the new component c is read from
+   IN
+   Eager([p \in 1..Len(data) |->
       LET lead == (p - 1) \div n   c == (p - 1) % n
-          v == data[lead * n + CompOf(SourceDigits(t, c, r), r) + 1]
+          v == data[lead * n + src[c + 1] + 1]
           w == IF t.conj THEN CConj(v) ELSE v
-      IN CScale(t.factor, w)]
+      IN CScale(t.factor, w)], Len(data))
 
 (* PointSymmetry.transform_tensor *)
 TransformTensor(g, data, r, tTR, tInv) ==
-   LET d1 == RotateData(g.R, data, r)
+   LET d1 == RotateData(g, data, r)
        d2 == IF g.TR THEN ApplyT(tTR, d1, r) ELSE d1
    IN IF g.Inv THEN ApplyT(tInv, d2, r) ELSE d2
 
@@ -121,12 +136,12 @@ MkK(nk, nb, rank, data, tTR, tInv) ==
 MkD(items) == [kind |-> "D", items |-> items]
 
 NK(o) == SumSeq(o.chunks)
-DAddV(x, y) == [p \in 1..Len(x) |-> CAdd(x[p], y[p])]
-DScale(s, x) == [p \in 1..Len(x) |-> CScale(s, x[p])]
+DAddV(x, y) == Eager([p \in 1..Len(x) |-> CAdd(x[p], y[p])], Len(x))
+DScale(s, x) == Eager([p \in 1..Len(x) |-> CScale(s, x[p])], Len(x))
 DSubV(x, y) == DAddV(x, DScale(-1, y))
 DZero(x) == [p \in 1..Len(x) |-> CZ]
 DivisibleData(x, s) == \A p \in 1..Len(x) : x[p][1] % s = 0 /\ x[p][2] % s = 0
-DDiv(x, s) == [p \in 1..Len(x) |-> <<x[p][1] \div s, x[p][2] \div s>>]
+DDiv(x, s) == Eager([p \in 1..Len(x) |-> <<x[p][1] \div s, x[p][2] \div s>>], Len(x))
 
 (* EnergyResult.__add__ : its checks *)
 EFit(a, b) == /\ a.kind = "E" /\ b.kind = "E" /\ a.shape = b.shape /\ a.rank = b.rank /\ a.en = b.en
@@ -233,10 +248,11 @@ RowsBag(o) ==   \* the k-rows of a K result as a bag: k-row -> multiplicity
        row(k) == [q \in 1..w |-> o.data[(k - 1) * w + q]]
        rows == {row(k) : k \in 1..NK(o)}
    IN [x \in rows |-> Cardinality({k \in 1..NK(o) : row(k) = x})]
+IsZero1(o) == o.kind = "V" \/ (o.kind \in {"E", "K"} /\ \A p \in 1..Len(o.data) : o.data[p] = CZ)
 SameVector1(a, b, uptoK) ==
-   IF a.kind # b.kind THEN FALSE
-   ELSE CASE a.kind = "V" -> TRUE
-          [] a.kind = "E" -> a.shape = b.shape /\ a.rank = b.rank /\ a.data = b.data /\ a.en = b.en
+   IF a.kind = "V" \/ b.kind = "V" THEN IsZero1(a) /\ IsZero1(b)      \* VoidResult "is identically zero"
+   ELSE IF a.kind # b.kind THEN FALSE
+   ELSE CASE a.kind = "E" -> a.shape = b.shape /\ a.rank = b.rank /\ a.data = b.data /\ a.en = b.en
                              /\ a.tTR = b.tTR /\ a.tInv = b.tInv
           [] a.kind = "K" -> a.nb = b.nb /\ a.rank = b.rank /\ a.tTR = b.tTR /\ a.tInv = b.tInv
                              /\ (IF uptoK THEN RowsBag(a) = RowsBag(b) ELSE a.data = b.data)
@@ -247,7 +263,6 @@ SameVectorG(a, b, uptoK) ==
    ELSE SameVector1(a, b, uptoK)
 SameVector(a, b) == SameVectorG(a, b, FALSE)
 SameUpToKOrder(a, b) == SameVectorG(a, b, TRUE)          \* the direct sum over k-points is commutative up to the k order
-IsZero1(o) == o.kind = "V" \/ (o.kind \in {"E", "K"} /\ \A p \in 1..Len(o.data) : o.data[p] = CZ)
 IsZero(o) == IF o.kind = "D" THEN \A k \in Keys(o) : IsZero1(o.items[k]) ELSE IsZero1(o)
 HasK(o) == o.kind = "K" \/ (o.kind = "D" /\ \E k \in Keys(o) : o.items[k].kind = "K")
 
@@ -275,16 +290,16 @@ AxisIndex(fs, a, q) == (q \div Stride(fs, a)) % fs[a]                  \* index 
 SmoothAxis(k, fs, x, a) ==
    IF IsVoidSmoother(k) THEN x
    ELSE LET ne == fs[a]  st == Stride(fs, a) IN
-        [p \in 1..Len(x) |->
+        Eager([p \in 1..Len(x) |->
            LET q == p - 1  i == AxisIndex(fs, a, q)  base == q - i * st
                lo == WinStart(k, i)  hi == WinEnd(k, ne, i)
            IN RDivInt(RSum([j \in 0..(ne - 1) |-> IF j >= lo /\ j < hi THEN RScale(KW(k, i, j), x[base + j * st + 1]) ELSE RInt(0)], ne - 1),
-                      RowSum(k, ne, i))]
+                      RowSum(k, ne, i))], Len(x))
 (* composition over the energy axes in the order given by the sequence `order` of axes (applied first .. last) *)
 RECURSIVE SmoothInOrder(_, _, _, _)
 SmoothInOrder(smo, fs, x, order) ==
    IF Len(order) = 0 THEN x ELSE SmoothInOrder(smo, fs, SmoothAxis(smo[order[1]], fs, x, order[1]), Tail(order))
-RatData(data) == [p \in 1..Len(data) |-> RInt(data[p])]                \* real integer data (C17 uses real parts)
+RatData(data) == Eager([p \in 1..Len(data) |-> RInt(data[p])], Len(data))                \* real integer data (C17 uses real parts)
 Descending(n) == [i \in 1..n |-> n + 1 - i]
 Ascending(n) == [i \in 1..n |-> i]
 (* what C17 demands of EnergyResult.dataSmooth: every axis smoother applied, each to the output of the previous one *)
@@ -294,8 +309,8 @@ Perms(n) == {f \in [1..n -> 1..n] : \A i, j \in 1..n : f[i] = f[j] => i = j}
 (* one line of an array along axis a through offset `base` (whose index along a is 0) *)
 Line(fs, x, a, base) == [j \in 1..fs[a] |-> x[base + (j - 1) * Stride(fs, a) + 1]]
 LineBases(fs, a) == {q \in 0..(ProdSeq(fs) - 1) : AxisIndex(fs, a, q) = 0}
-RAddV(x, y) == [p \in 1..Len(x) |-> RAdd(x[p], y[p])]
-RScaleV(s, x) == [p \in 1..Len(x) |-> RScale(s, x[p])]
+RAddV(x, y) == Eager([p \in 1..Len(x) |-> RAdd(x[p], y[p])], Len(x))
+RScaleV(s, x) == Eager([p \in 1..Len(x) |-> RScale(s, x[p])], Len(x))
 
 (* get_smoother(energy, smear, mode) : which class comes back.  hasE: energy is not None; ne = len(energy);
    smear in {"none", "nonpos", "pos"}; mode in {"None", "Fermi-Dirac", "Gaussian", other} *)
@@ -311,17 +326,19 @@ GetSmootherKind(hasE, ne, smear, mode) ==
    store : sequence of objects (a new object is appended by every operator that constructs one; add() changes its
            object in place; reading .data in K__Result.__sub__ merges the operands' data_list)
    files : abstract .npz files (Result.save), loaded back by LoadNpz
+   start : which initial store the behaviour began with
    hist  : the operations applied so far, [op, i, j, s, g, out]; out = index of the store entry (or file) the result
            went to, 0 = the result is only compared (it has to equal object i) and dropped: `x + Void`, `Void + x`,
            `x - Void` may or may not return x itself, the specification leaves that open *)
-CONSTANTS InitStores,      \* set of initial stores
+CONSTANTS InitStores,      \* sequence of initial stores
           Scalars,         \* integers for  * s
           Divisors,        \* positive integers for  / s
           Syms,            \* record: name -> PointSymmetry [R, TR, Inv, order] (all of them are used by the laws)
           ActSyms,         \* the names used by the Transform action
           MaxOps
-VARIABLES store, files, hist
-vars == <<store, files, hist>>
+VARIABLES start, store, files, hist
+SNone == <<>>                \* value for the machine constants in models that do not use the machine
+vars == <<start, store, files, hist>>
 
 N == Len(store)
 Idx == 1..N
@@ -330,41 +347,41 @@ SymNames == ActSyms
 Ev(op, i, j, s, g, out) == [op |-> op, i |-> i, j |-> j, s |-> s, g |-> g, out |-> out]
 More == Len(hist) < MaxOps
 
-Init == store \in InitStores /\ files = <<>> /\ hist = <<>>
+Init == start \in DOMAIN InitStores /\ store = InitStores[start] /\ files = <<>> /\ hist = <<>>
 
 DoAdd(i, j) == /\ More /\ Fit(Obj(i), Obj(j))
                /\ store' = Append(store, Add(Obj(i), Obj(j)))
-               /\ hist' = Append(hist, Ev("Add", i, j, 0, "", N + 1)) /\ UNCHANGED files
+               /\ hist' = Append(hist, Ev("Add", i, j, 0, "", N + 1)) /\ UNCHANGED <<start, files>>
 DoSub(i, j) == /\ More /\ SameShape(Obj(i), Obj(j))
                /\ store' = Append([k \in Idx |-> IF k \in {i, j} /\ Obj(i).kind = "K" THEN Touch(Obj(k)) ELSE Obj(k)], Sub(Obj(i), Obj(j)))
-               /\ hist' = Append(hist, Ev("Sub", i, j, 0, "", N + 1)) /\ UNCHANGED files
+               /\ hist' = Append(hist, Ev("Sub", i, j, 0, "", N + 1)) /\ UNCHANGED <<start, files>>
 DoAddInPlace(i, j) == /\ More /\ AddInPlaceDefined(Obj(i), Obj(j))
                       /\ store' = [store EXCEPT ![i] = AddInPlace(Obj(i), Obj(j))]
-                      /\ hist' = Append(hist, Ev("AddInPlace", i, j, 0, "", i)) /\ UNCHANGED files
+                      /\ hist' = Append(hist, Ev("AddInPlace", i, j, 0, "", i)) /\ UNCHANGED <<start, files>>
 DoMul(i, s) == /\ More /\ store' = Append(store, Mul(Obj(i), s))
-               /\ hist' = Append(hist, Ev("Mul", i, 0, s, "", N + 1)) /\ UNCHANGED files
+               /\ hist' = Append(hist, Ev("Mul", i, 0, s, "", N + 1)) /\ UNCHANGED <<start, files>>
 DoDiv(i, s) == /\ More /\ DivDefined(Obj(i), s)
                /\ store' = Append(store, Div(Obj(i), s))
-               /\ hist' = Append(hist, Ev("Div", i, 0, s, "", N + 1)) /\ UNCHANGED files
+               /\ hist' = Append(hist, Ev("Div", i, 0, s, "", N + 1)) /\ UNCHANGED <<start, files>>
 (* VoidResult on either side *)
 DoAddVoidRight(i) == /\ More /\ SameVector(Add(Obj(i), Void), Obj(i))
-                     /\ hist' = Append(hist, Ev("AddVoidRight", i, 0, 0, "", 0)) /\ UNCHANGED <<store, files>>
+                     /\ hist' = Append(hist, Ev("AddVoidRight", i, 0, 0, "", 0)) /\ UNCHANGED <<start, store, files>>
 DoAddVoidLeft(i) == /\ More /\ SameVector(Add(Void, Obj(i)), Obj(i))
-                    /\ hist' = Append(hist, Ev("AddVoidLeft", i, 0, 0, "", 0)) /\ UNCHANGED <<store, files>>
+                    /\ hist' = Append(hist, Ev("AddVoidLeft", i, 0, 0, "", 0)) /\ UNCHANGED <<start, store, files>>
 DoSubVoidRight(i) == /\ More /\ SameVector(Sub(Obj(i), Void), Obj(i))
-                     /\ hist' = Append(hist, Ev("SubVoidRight", i, 0, 0, "", 0)) /\ UNCHANGED <<store, files>>
+                     /\ hist' = Append(hist, Ev("SubVoidRight", i, 0, 0, "", 0)) /\ UNCHANGED <<start, store, files>>
 DoSubVoidLeft(i) == /\ More /\ store' = Append(store, Sub(Void, Obj(i)))
-                    /\ hist' = Append(hist, Ev("SubVoidLeft", i, 0, 0, "", N + 1)) /\ UNCHANGED files
+                    /\ hist' = Append(hist, Ev("SubVoidLeft", i, 0, 0, "", N + 1)) /\ UNCHANGED <<start, files>>
 DoTransform(i, g) == /\ More /\ TransformDefined(Obj(i), Syms[g])
                      /\ store' = Append(store, Transform(Obj(i), Syms[g]))
-                     /\ hist' = Append(hist, Ev("Transform", i, 0, 0, g, N + 1)) /\ UNCHANGED files
+                     /\ hist' = Append(hist, Ev("Transform", i, 0, 0, g, N + 1)) /\ UNCHANGED <<start, files>>
 DoSave(i) == /\ More /\ Savable(Obj(i))
              /\ files' = Append(files, SaveNpz(Obj(i)))
-             /\ hist' = Append(hist, Ev("SaveNpz", i, 0, 0, "", Len(files) + 1)) /\ UNCHANGED store
+             /\ hist' = Append(hist, Ev("SaveNpz", i, 0, 0, "", Len(files) + 1)) /\ UNCHANGED <<start, store>>
 DoLoad(f) == /\ More /\ store' = Append(store, LoadNpz(files[f]))
-             /\ hist' = Append(hist, Ev("LoadNpz", f, 0, 0, "", N + 1)) /\ UNCHANGED files
+             /\ hist' = Append(hist, Ev("LoadNpz", f, 0, 0, "", N + 1)) /\ UNCHANGED <<start, files>>
 DoSaveVoid == /\ More /\ files' = Append(files, SaveNpz(Void))
-              /\ hist' = Append(hist, Ev("SaveVoid", 0, 0, 0, "", Len(files) + 1)) /\ UNCHANGED store
+              /\ hist' = Append(hist, Ev("SaveVoid", 0, 0, 0, "", Len(files) + 1)) /\ UNCHANGED <<start, store>>
 
 Next == \/ \E i, j \in Idx : DoAdd(i, j)
         \/ \E i, j \in Idx : DoSub(i, j)
@@ -389,7 +406,7 @@ FreshIdx == IF Len(hist) = 0 THEN Idx
 Inv1(i) == i \in FreshIdx
 Inv2(i, j) == i \in FreshIdx \/ j \in FreshIdx
 Inv3(i, j, k) == i \in FreshIdx \/ j \in FreshIdx \/ k \in FreshIdx
-LawSyms == DOMAIN Syms
+LawSyms == IF Len(hist) = 0 THEN DOMAIN Syms ELSE ActSyms      \* all point operations on the initial objects
 
 NoRaise == \A i \in Idx : ~IsX(Obj(i)) /\ (Obj(i).kind = "D" => ~AnyX(Obj(i)))
 Fit3(a, b, c) == Fit(a, b) /\ Fit(b, c) /\ Fit(a, c)
